@@ -386,7 +386,7 @@ def _dlis_cases(ctx, n_hostile):
     for rel in DLIS_SMALL + [DLIS_BIG]:
         yield {'file': f'{DLIS_DIR}/{rel}', 'kind': 'example', 'edits': [], 'injected': []}
     for i in range(n_hostile):
-        rel = DLIS_SMALL[i % len(DLIS_SMALL)] if i % 7 else DLIS_BIG
+        rel = DLIS_SMALL[i % len(DLIS_SMALL)] if i % 14 else DLIS_BIG     # the big file costs about a second per document
         yield _gen_dlis_case(ctx.rng, f'{DLIS_DIR}/{rel}', DLIS_KINDS[i % len(DLIS_KINDS)])
 
 
@@ -767,7 +767,7 @@ def _do_svg(ctx, case, _work):
 
 
 def _run_svg(ctx):
-    for i in range(ctx.n(150, 3000)):
+    for i in range(ctx.n(300, 3000)):
         kind = ('clean', 'clean', 'clean', 'ctrl', 'comment--')[i % 5]
         case = {'op': 'svg', 'seed': ctx.rng.getrandbits(48), 'kind': kind}
         _do_svg(ctx, case)
